@@ -74,6 +74,8 @@ Floats == <<
   F("1.", "dot"), F("1.5", "d"), F("0.0", "d"), F("1e3", "d"), F("1E-3", "d"), F("1.5e+3", "d"), F("1.e3", "d"),
   F("1e+3", "d"), F("2E+1_0", "d"), F("7e-2", "d"), F("1.E+3", "d"),
   F("1_0.5_0", "d"), F("0e0", "d"), F("12.e-1_0", "d"),
+  (* integer part exactly "0" (the path that also decides the base prefixes 0b / 0o / 0x) *)
+  F("0E3", "d"), F("0E-3", "d"), F("0e+1", "d"), F("0.E3", "d"), F("0.5", "d"), F("0.", "dot"), F("00E3", "d"),
   L("float", "FLOAT_NUMBER", ".5", "dot", "d"), L("float", "FLOAT_NUMBER", ".5e3", "dot", "d"),
   L("float", "FLOAT_NUMBER", ".0_1E+2", "dot", "d") >>
 
@@ -82,7 +84,10 @@ Units == << U("dt"), U("ns"), U("us"), U("%%00B5;s"), U("ms"), U("s"), U("im") >
 
 Bits == <<
   L("bits", "BIT_STRING", "\"0\"", "quote", "quote"), L("bits", "BIT_STRING", "\"0101\"", "quote", "quote"),
-  L("bits", "BIT_STRING", "\"1_0\"", "quote", "quote"), L("bits", "BIT_STRING", "'01'", "quote", "quote") >>
+  L("bits", "BIT_STRING", "\"1_0\"", "quote", "quote"), L("bits", "BIT_STRING", "'01'", "quote", "quote"),
+  (* several separators: single underscores between digits are well formed however many there are *)
+  L("bits", "BIT_STRING", "\"0_1_0\"", "quote", "quote"), L("bits", "BIT_STRING", "\"1_0_1_1\"", "quote", "quote"),
+  L("bits", "BIT_STRING", "'0_1_0'", "quote", "quote"), L("bits", "BIT_STRING", "\"0000_1111_0000\"", "quote", "quote") >>
 Strings == <<
   L("str", "STRING", "\"abc\"", "quote", "quote"), L("str", "STRING", "\"stdgates.inc\"", "quote", "quote"),
   L("str", "STRING", "'x y'", "quote", "quote"), L("str", "STRING", "\"a\\\"b\"", "quote", "quote"),
